@@ -50,8 +50,9 @@ RULE = ("case = (criterion family, candidate data on a dyadic grid, selected mul
         "distinct breeding values, contributions written down in the harness; the EMBV matrix factory with nrep / nprogeny as scalars and as per-taxon arrays with "
         "unequal entries, sorted both ways, int32/int64; the EMBV problem factories with SelfCross, TwoWayCross and TwoWayDHCross on homozygous and segregating parents; "
         "from_numpy of the weighted classes), or the class / factory-method / variance-factory enumeration cases; every latent case with at most 12 candidates is also a "
-        "session on the same problem objects (inputs left intact; new data through every property setter incl. the flags a setter derives; deep copy equal and "
-        "array-disjoint; in-place update of a data array seen by the next call) and is repeated on data scaled by 2^-40, 2^-20, 2^12 or 2^20 (exact scale law); "
+        "session on the same problem objects (inputs left intact; new data through every property setter incl. the target flags read afterwards; deep copy equal and "
+        "array-disjoint; in-place update of a data array and, for the allele-frequency families, of the target array — targets moved across 0 / 1 — seen by the next "
+        "call of the subset and the real problem and by the flag properties) and is repeated on data scaled by 2^-40, 2^-20, 2^12 or 2^20 (exact scale law); "
         "targets 2^-40 and 1-2^-40 next to exact 0 / 1; one PRNG; sizes n 1..8 (up to 206 for "
         "the allele-frequency families so that ploidy*k hits 49, 98, 103, 107 where a rounded reciprocal is inexact), target frequencies incl. "
         "exactly 0 and 1, k 1..6 incl. repeated members, zero vectors, guard-region sums; "
@@ -331,9 +332,9 @@ def run_latent(case):
 
 def _lifecycle(case, out, ps, pr, xs, xr):
     """the same problem objects, after the calls above: (1) decision vectors and data arrays are left untouched by latentfn /
-    evalfn / evaluate; (2) new data assigned through the property setters -> the next call answers for the NEW data (flags
-    derived by a setter included); (3) a deep copy answers the same and shares no array with the original; (4) an in-place
-    update of a data array is seen by the next call; (5) the problem built on data scaled by 2^e (scale law)."""
+    evalfn / evaluate; (2) new data assigned through the property setters -> the next call answers for the NEW data (target
+    flags included); (3) a deep copy answers the same and shares no array with the original; (4) an in-place update of a data
+    array — (4b) of the target array, flags included — is seen by the next call; (5) the problem built on data scaled by 2^e (scale law)."""
     import copy
     fam, d, ev = case["fam"], case["data"], case["eval"]
     if "data2" not in case: return
